@@ -87,7 +87,7 @@ func hStepValid(st HStep) string {
 			return "malformed address hash"
 		}
 	case "quote":
-		if st.Unit.Bytes < 1 || st.Unit.Sat < 0 || st.Unit.Sat > 1000000 || st.Unit.Bytes > 1000000 {
+		if !ref.FeeQuoteEditWideOK(hEdit(st)) {
 			return "quote outside domain"
 		}
 	case "fund":
@@ -305,7 +305,7 @@ func checkHistory(ctx *pbt.Ctx, c HistCase) error {
 	}
 	q := c.Quote
 	for _, u := range []ref.FeeUnit{q.Std, q.Data} {
-		if u.Bytes < 1 || u.Sat < 0 || u.Sat > 1000000 || u.Bytes > 1000000 {
+		if !ref.FeeUnitWideOK(u) {
 			ctx.Discard("quote outside domain")
 			return nil
 		}
@@ -459,6 +459,9 @@ func genHOut(t *rapid.T) (pbt.Hex, uint64) {
 		s = append(pbt.Hex{0x6a}, gen.FillBytes(t, gen.EdgeLen(t, 400, "dlen", 0, 1, 75, 76, 251, 252, 253), "payload")...)
 	case 4:
 		s = append(pbt.Hex{0x00, 0x6a}, gen.FillBytes(t, gen.EdgeLen(t, 400, "dlen", 0, 1, 75, 76, 250, 251, 252), "payload")...)
+		if rapid.IntRange(0, 3).Draw(t, "template_payload") == 2 { // pushes that start with opcode-valued bytes
+			s = append(pbt.Hex{0x00, 0x6a}, gen.C10DataPayload(t, "tpl")...)
+		}
 	default:
 		s = gen.FillBytes(t, gen.EdgeLen(t, 100, "slen", 0, 1, 25), "oscript")
 	}
@@ -514,6 +517,7 @@ func genHEdit(t *rapid.T, m ref.Tx) HStep {
 		st.Tag = genFeeTag(t, "tag")
 		st.Via = genQuoteVia(t, "via")
 		st.Unit2 = genUnit(t, "unit2")
+		genEditWiden(t, &st.Unit, &st.Unit2, &st.Via)
 	case "change":
 		st.Hash = gen.Bytes(t, 20, "chash")
 	}
@@ -527,6 +531,7 @@ func genHistCase(t *rapid.T) HistCase {
 	c.Quote = ref.FeeQuote{Std: genUnit(t, "std"), Data: genUnit(t, "data"), StdRelay: genUnit(t, "stdrelay"), DataRelay: genUnit(t, "datarelay"),
 		StdTag: genFeeTag(t, "stdtag"), DataTag: genFeeTag(t, "datatag")}
 	genQuoteBuild(t, &c.Quote)
+	genQuoteWiden(t, &c.Quote)
 	nout := rapid.IntRange(0, 3).Draw(t, "nout")
 	for i := 0; i < nout; i++ {
 		s, v := genHOut(t)
@@ -542,6 +547,7 @@ func genHistCase(t *rapid.T) HistCase {
 		}
 		c.Tx.In = append(c.Tx.In, in)
 	}
+	c.Tx.In = gen.C10SpecialOutpoints(t, c.Tx.In)
 	m := hCopyModel(c.Tx)
 	q := c.Quote
 	// the generator's running model: edits exactly, Fund by the loop model, change by the reference fee
